@@ -1280,10 +1280,12 @@ void amount_t::verif_rational(std::ostream& out) const
       out << hexd[c >> 4] << hexd[c & 15];
     }
     if (commodity().has_annotation()) {
+      // only what was written in the journal: computed price/date parts are left out
       std::ostringstream buf;
-      commodity().write_annotations(buf, false);
+      commodity().write_annotations(buf, true);
       const string ann(buf.str());
-      out << '~';
+      if (! ann.empty())
+        out << '~';
       for (string::size_type i = 0; i < ann.length(); i++) {
         unsigned char c = static_cast<unsigned char>(ann[i]);
         out << hexd[c >> 4] << hexd[c & 15];
